@@ -29,3 +29,21 @@ func VerifSetGenerator(tcs TokenCalculateStrategy, cb ControlBehavior, hook func
 		return tsc, nil
 	})
 }
+
+// VerifSetThrottlingGenerator is VerifSetGenerator with a Direct + Throttling controller (the only
+// stateful controller a rule of a non-default strategy pair can get: such a rule reads no statistic).
+// Verification builds only.
+func VerifSetThrottlingGenerator(tcs TokenCalculateStrategy, cb ControlBehavior, hook func(rule *Rule) error) error {
+	return SetTrafficShapingGenerator(tcs, cb, func(rule *Rule, _ *standaloneStatistic) (*TrafficShapingController, error) {
+		if err := hook(rule); err != nil {
+			return nil, err
+		}
+		tsc, err := NewTrafficShapingController(rule, nopStat)
+		if err != nil || tsc == nil {
+			return nil, err
+		}
+		tsc.flowCalculator = NewDirectTrafficShapingCalculator(tsc, rule.Threshold)
+		tsc.flowChecker = NewThrottlingChecker(tsc, rule.MaxQueueingTimeMs, rule.StatIntervalInMs)
+		return tsc, nil
+	})
+}
